@@ -1262,3 +1262,56 @@ Definition dbl_exact (z : Z) : bool :=
 (* kind 'num_int' *)
 Definition run_num_int (z : Z) : val :=
   if num_int_exact z then VL [VB true; VB (dbl_exact z)] else VL [VB false; VNone].
+
+(* ------------------------------------------------------------------ *)
+(* kind 'coplanar': highdicom.spatial.are_points_coplanar driven directly
+   (any number of points, open contours): ValueError unless n x 3, otherwise
+   the exact rank test (n < 4 is always coplanar - [coplanar] agrees).      *)
+Definition run_coplanar (pts : list (list Q)) : val :=
+  if rows_dim 3 pts then VB (coplanar pts) else VErr EValue.
+
+(* ------------------------------------------------------------------ *)
+(* kind 'history': reads of .value on ONE SCOORD / SCOORD3D item over time.
+   ScoordContentItem.value / Scoord3DContentItem.value build a NEW array from
+   GraphicData on every access, and the constructor stores a copy
+   (graphic_data.flatten().tolist()): whatever a caller does to an array it
+   obtained earlier, to the array it passed to the constructor or to the
+   dataset the item was parsed from cannot reach the item.  In-place edits of
+   item.GraphicData and its re-assignment do.  State = the flat GraphicData. *)
+Inductive hop :=
+| HRead                       (* item.value, observed *)
+| HScribble                   (* in-place change of an array obtained earlier / of the
+                                 constructor argument / of the source dataset *)
+| HEdit (i : Z) (q : Q)       (* item.GraphicData[i] = q *)
+| HAssign (l : list Q)        (* item.GraphicData = l *)
+| HRoundTrip.                 (* .value of the serialised-and-parsed copy, read, scribbled on, read again *)
+
+Definition set_nth {A} (k : nat) (x : A) (l : list A) : list A := firstn k l ++ x :: skipn (S k) l.
+
+(* np.array(GraphicData).reshape(-1, k) *)
+Definition read_rows (k : nat) (data : list Q) : val := vres vq_rows (reshape k data).
+
+Definition hist_step (k : nat) (data : list Q) (o : hop) : list val * list Q :=
+  match o with
+  | HRead => ([read_rows k data], data)
+  | HScribble => ([], data)
+  | HEdit i q =>
+      match norm_idx (len data) i with
+      | None => ([VErr EIndex], data)
+      | Some n => ([VS "ok"], set_nth n q data)
+      end
+  | HAssign l => ([], l)
+  | HRoundTrip => ([read_rows k data; read_rows k data], data)
+  end.
+
+Fixpoint hist_run (k : nat) (data : list Q) (ops : list hop) : list val * list Q :=
+  match ops with
+  | [] => ([], data)
+  | o :: ops' =>
+      let '(e, d) := hist_step k data o in
+      let '(es, d') := hist_run k d ops' in (e ++ es, d')
+  end.
+
+(* the observations of the calls in order, then the final GraphicData *)
+Definition run_hist (k : Z) (pts : list (list Q)) (ops : list hop) : val :=
+  let '(es, d) := hist_run (Z.to_nat k) (concat pts) ops in VL [VL es; vq_list d].
